@@ -77,6 +77,8 @@ def _doclines(tag, i, n, v):
             out.append("")
         elif j == 2 and v & 2:
             out.append(f"   indented zq{tag}d{i}l{j} more")
+        elif j == 0 and v & 16 and n >= 2:
+            out.append(f"zq{tag}d{i}l{j} takes :keyword FLAG: extras")
         else:
             out.append(f"zq{tag}d{i}l{j} words about item {i}")
     return out
